@@ -80,3 +80,45 @@ def step (s : St) : Act → St
 def run (s : St) (h : List Act) : St := h.foldl step s
 
 end PV.ChanIds
+
+/-! ## statement granularity: is `_next_channel` really called with the transport lock held?
+
+  `_next_channel` is documented "you are holding the lock".  A caller that holds `self.lock` runs the map
+  lookup, the counter increment and (in `open_channel`) the registration as ONE region; a caller that does not
+  runs "look the id up" and "advance the counter / register" as two steps, with anything in between.  Which
+  call sites hold the lock is generated from the AST of transport.py (PV/Generated/C23.lean). -/
+namespace PV.ChanIds
+
+inductive APc where
+  | ready (locked : Bool)
+  | looked (id : Nat)        -- (unlocked caller) has chosen `id`, has not advanced the counter / registered yet
+  | got (id : Nat)
+  deriving Repr, DecidableEq
+
+structure ASt where
+  counter : Nat
+  live : List Nat
+  thr : List APc
+  deriving Repr, DecidableEq
+
+def astep (s : ASt) (t : Nat) : ASt :=
+  match s.thr[t]? with
+  | some (.ready true) =>
+    match nextChannel (fun i => s.live.contains i) s.counter with
+    | some (id, c') => { counter := c', live := id :: s.live, thr := s.thr.set t (.got id) }
+    | none => s
+  | some (.ready false) =>
+    match scan (fun i => s.live.contains i) M s.counter with
+    | some id => { s with thr := s.thr.set t (.looked id) }
+    | none => s
+  | some (.looked id) => { counter := (id + 1) % M, live := id :: s.live, thr := s.thr.set t (.got id) }
+  | _ => s
+
+def arun (s : ASt) (sched : List Nat) : ASt := sched.foldl astep s
+
+def gotIds : List APc → List Nat
+  | [] => []
+  | .got id :: r => id :: gotIds r
+  | _ :: r => gotIds r
+
+end PV.ChanIds
